@@ -5,11 +5,19 @@
 -/
 import Driver.Common
 import Driver.Wire
+import Driver.Plan
+import Driver.Batch
+import Driver.Middleware
+import Driver.Client
 open Driver
 
 /-- the handler chain: add one line per driver module. -/
 def handlers : List (String → String → Option String) := [
-  handleWire
+  handleWire,
+  handlePlan,
+  handleBatch,
+  handleMiddleware,
+  handleClient
 ]
 
 def handle (line : String) : String :=
